@@ -85,7 +85,7 @@ func engineOracle(r *scen.Runner, sp *scen.Sprint) *harn.Failure {
 }
 
 var engineOpts = scen.GenOpts{
-	World: world.Opts{MaxFlows: 2, MaxNodes: 5, QueryGroups: true, Languages: []string{"fra"},
+	World: world.Opts{MaxFlows: 2, MaxNodes: 5, QueryGroups: true, Languages: []string{"fra"}, WaitHeavy: true,
 		Actions: []string{"set_contact_name", "set_contact_language", "set_contact_field", "set_contact_status", "set_contact_timezone", "set_contact_channel",
 			"add_contact_groups", "remove_contact_groups", "add_contact_urn", "open_ticket", "send_msg", "enter_flow", "set_run_result"}},
 	StaleGroups: true,
